@@ -79,8 +79,9 @@ VARIABLES ch, N, fk, drv, bs, place,   \* scenario
           pos,                         \* values taken from the flow
           locs, aloc,                  \* per pre element state (run side or fill side); accumulator
           buf, active, stopped,        \* Split: current block, branch still active; LenaStopFill seen
-          reach, out, computes, stopAt, phase
-vars == <<ch, N, fk, drv, bs, place, pos, locs, aloc, buf, active, stopped, reach, out, computes, stopAt, phase>>
+          reach, out, computes, stopAt, phase,
+          act                          \* name of the action taken last (vacuity census)
+vars == <<ch, N, fk, drv, bs, place, pos, locs, aloc, buf, active, stopped, reach, out, computes, stopAt, phase, act>>
 
 xs == FlowOf(N, fk)
 Init == /\ ch \in Chains /\ N \in 0..MaxN /\ fk \in FlowKinds /\ drv \in Drivers
@@ -92,47 +93,48 @@ Init == /\ ch \in Chains /\ N \in 0..MaxN /\ fk \in FlowKinds /\ drv \in Drivers
         /\ buf = <<>> /\ active = TRUE /\ stopped = FALSE
         /\ reach = <<>> /\ out = <<>> /\ computes = 0 /\ stopAt = None
         /\ phase = (IF drv = "split" THEN "read" ELSE "feed")
+        /\ act = "Init"
 
 Scenario == UNCHANGED <<ch, N, fk, drv, bs, place>>
 Results == Sem2(ch.post, AccCompute(ch.acc, aloc))
 
 \* ---- Sequence.run
-RunFeed == /\ drv = "run" /\ phase = "feed" /\ pos < N
+RunFeed == /\ act' = "RunFeed" /\ drv = "run" /\ phase = "feed" /\ pos < N
            /\ LET r == FeedVals(ch.pre, locs, 1, <<xs[pos + 1]>>) IN
               /\ locs' = r.locs /\ aloc' = AccFillAll(ch.acc, aloc, r.reach) /\ reach' = reach \o r.reach
            /\ pos' = pos + 1
            /\ Scenario /\ UNCHANGED <<buf, active, stopped, out, computes, stopAt, phase>>
-RunEof == /\ drv = "run" /\ phase = "feed" /\ pos = N
+RunEof == /\ act' = "RunEof" /\ drv = "run" /\ phase = "feed" /\ pos = N
           /\ out' = Results /\ computes' = computes + 1 /\ phase' = "done"
           /\ Scenario /\ UNCHANGED <<pos, locs, aloc, buf, active, stopped, reach, stopAt>>
 
 \* ---- FillComputeSeq / FillSeq filled value by value
-FillValue == /\ drv = "fill" /\ phase = "feed" /\ pos < N /\ ~stopped
+FillValue == /\ act' = "FillValue" /\ drv = "fill" /\ phase = "feed" /\ pos < N /\ ~stopped
              /\ LET r == FillVals(ch.pre, locs, 1, <<xs[pos + 1]>>) IN
                 /\ locs' = r.locs /\ aloc' = AccFillAll(ch.acc, aloc, r.reach) /\ reach' = reach \o r.reach
                 /\ stopped' = r.stop /\ stopAt' = (IF r.stop THEN pos ELSE None)
              /\ pos' = pos + 1
              /\ Scenario /\ UNCHANGED <<buf, active, out, computes, phase>>
-FillCompute == /\ drv = "fill" /\ phase = "feed" /\ (pos = N \/ stopped)
+FillCompute == /\ act' = "FillCompute" /\ drv = "fill" /\ phase = "feed" /\ (pos = N \/ stopped)
                /\ out' = Results /\ computes' = computes + 1 /\ phase' = "done"
                /\ Scenario /\ UNCHANGED <<pos, locs, aloc, buf, active, stopped, reach, stopAt>>
 
 \* ---- FillComputeSeq that is filled with every value although LenaStopFill was raised, and computed twice
-PersistValue == /\ drv = "persist" /\ phase = "feed" /\ pos < N
+PersistValue == /\ act' = "PersistValue" /\ drv = "persist" /\ phase = "feed" /\ pos < N
                 /\ LET r == FillVals(ch.pre, locs, 1, <<xs[pos + 1]>>) IN
                    /\ locs' = r.locs /\ aloc' = AccFillAll(ch.acc, aloc, r.reach) /\ reach' = reach \o r.reach
                    /\ stopped' = (stopped \/ r.stop) /\ stopAt' = (IF r.stop /\ ~stopped THEN pos ELSE stopAt)
                 /\ pos' = pos + 1
                 /\ Scenario /\ UNCHANGED <<buf, active, out, computes, phase>>
-PersistCompute == /\ drv = "persist" /\ phase = "feed" /\ pos = N
+PersistCompute == /\ act' = "PersistCompute" /\ drv = "persist" /\ phase = "feed" /\ pos = N
                   /\ out' = Results /\ computes' = computes + 1 /\ phase' = "done"
                   /\ Scenario /\ UNCHANGED <<pos, locs, aloc, buf, active, stopped, reach, stopAt>>
-ComputeAgain == /\ drv = "persist" /\ phase = "done" /\ Stateless(ch.post)
+ComputeAgain == /\ act' = "ComputeAgain" /\ drv = "persist" /\ phase = "done" /\ Stateless(ch.post)
                 /\ out' = Results /\ phase' = "done2"
                 /\ Scenario /\ UNCHANGED <<pos, locs, aloc, buf, active, stopped, reach, computes, stopAt>>
 
 \* ---- Split.run with the chain as its only branch
-SplitRead == /\ drv = "split" /\ phase = "read"
+SplitRead == /\ act' = "SplitRead" /\ drv = "split" /\ phase = "read"
              /\ LET k == IF bs = None THEN N - pos ELSE Min(bs, N - pos) IN
                 IF k = 0 THEN phase' = "final" /\ UNCHANGED <<buf, pos>>
                 ELSE /\ buf' = SubSeq(xs, pos + 1, pos + k) /\ pos' = pos + k /\ phase' = "fill"
@@ -152,7 +154,7 @@ Given(blk) == IF CopyMode = "shared" /\ place = "middle" THEN [j \in 1..Len(blk)
 \* the sibling S listed before the chain raises LenaStopFill in the block that holds the value with index SibStop
 SibStop == 1
 SiblingStopsInBlock == place = "afterstop" /\ N > SibStop /\ pos - Len(buf) <= SibStop /\ SibStop < pos
-SplitFill == /\ drv = "split" /\ phase = "fill"
+SplitFill == /\ act' = "SplitFill" /\ drv = "split" /\ phase = "fill"
              /\ IF ~active THEN UNCHANGED <<locs, aloc, reach, stopped, active, out, computes, stopAt>>
                 ELSE LET r == FillBlock(ch.pre, locs, Given(buf))
                          a2 == AccFillAll(ch.acc, aloc, r.reach)
@@ -165,7 +167,7 @@ SplitFill == /\ drv = "split" /\ phase = "fill"
                         ELSE UNCHANGED <<out, computes>>
              /\ phase' = "read"
              /\ Scenario /\ UNCHANGED <<pos, buf>>
-SplitEnd == /\ drv = "split" /\ phase = "final"
+SplitEnd == /\ act' = "SplitEnd" /\ drv = "split" /\ phase = "final"
             /\ IF active THEN out' = Results /\ computes' = computes + 1 ELSE UNCHANGED <<out, computes>>
             /\ phase' = "done"
             /\ Scenario /\ UNCHANGED <<pos, locs, aloc, buf, active, stopped, reach, stopAt>>
@@ -193,6 +195,8 @@ ComputeOnce == /\ computes <= 1
 \* Split holds at most one block
 BufBound == bs # None => Len(buf) <= bs
 
+\* vacuity census (cheaper than TLC's -coverage): prints the action that led to each state
+Census == PrintT(<<"ACT", act>>)
 Emitted == (phase = "done" /\ drv = "fill") =>
    PrintT(ToJson([ch |-> ch, N |-> N, fk |-> fk, out |-> out, reach |-> reach, stopAt |-> stopAt]))
 =============================================================================
